@@ -15,7 +15,7 @@ for d in seeded/C*-*; do
   case $id in C06-*|C05-1) extra="C05 C06 C17";; C17-*) extra="C06 C17";; C10-2|C13-2) extra="C10 C13";; C09-2) extra="C09 C13";; esac
   for chk in $prop $extra; do
     [ "$chk" = "$prop" ] || [ -n "$chk" ] || continue
-    git -C "$REPO" apply "$d/patch.diff" || { echo "apply failed $id"; continue; }
+    git -C "$REPO" apply "$PWD/$d/patch.diff" || { echo "apply failed $id"; continue; }
     ./check $chk --tier quick > /tmp/sweep_$$.log 2>&1; rc=$?
     git -C "$REPO" checkout -- .
     n=$(grep -c '^VIOLATION' /tmp/sweep_$$.log)
